@@ -4,7 +4,8 @@ import itertools
 
 from . import common, pure
 
-PROOFS = ["proofs/SortProofs.v", "proofs/SortSorted.v", "proofs/SortPivot.v", "proofs/UniqueProofs.v", "models/Sort.v", "models/Unique.v"]
+PROOFS = ["proofs/SortProofs.v", "proofs/SortSorted.v", "proofs/SortPivot.v", "proofs/UniqueProofs.v", "models/Sort.v", "models/Unique.v",
+          "models/SortSeq.v", "proofs/SortSeqProofs.v"]
 
 BR_NAMES = ["small_segment_insertion", "doPivot", "ninther", "dup_check", "protect_loop",
             "heapsort_fallback", "recurse_left_first", "recurse_right_first"]
@@ -22,10 +23,12 @@ def less(mode, x, y):
         return (x - y) % 3 == 1
     if mode == 4:
         return True
+    if mode in (6, 7):      # the less that decides x < y by calling SliceBy itself (c15Nested / srt_less_nested)
+        return x < y
     return x <= y
 
 
-CONSISTENT = (0, 1, 2)  # strict weak orders
+CONSISTENT = (0, 1, 2, 6, 7)  # strict weak orders
 
 
 def lst(s):
@@ -69,6 +72,8 @@ def cmp_bound(n):
 # ---------------------------------------------------------------- compare / monitor
 def compare(case, model, impl):
     tag = case.split(" ", 1)[0]
+    if tag in SEQ_TAGS:
+        return SEQ_TAGS[tag][0](case, model, impl)
     if tag == "c15S":
         pm, pi = parse_sort(model), parse_sort(impl)
         if pm is None:
@@ -105,6 +110,8 @@ def collapse_ref(xs):
 def monitor(case, impl):
     """Direct restatement of the property on the implementation's observation."""
     tag = case.split(" ", 1)[0]
+    if tag in SEQ_TAGS:
+        return SEQ_TAGS[tag][1](case, impl)
     if tag == "c15S":
         mode, kt, keys, vals = case_params(case)
         pi = parse_sort(impl)
@@ -143,11 +150,316 @@ def monitor(case, impl):
 
 
 def nontrivial(case, model):
+    tag = case.split(" ", 1)[0]
+    if tag in SEQ_TAGS:
+        return SEQ_TAGS[tag][2](case, model)
     if case.startswith("c15S"):
         pm = parse_sort(model)
         return pm is not None and pm[2] >= 2
     pm = parse_unique(model)
     return pm is not None and len(pm[0]) < len(pm[1])
+
+
+# ---------------------------------------------------------------- calls that share something
+# c15Q: call sequences on one pair of backing arrays; c15G: concurrent calls on private data;
+# c15A: adaptive quicksort adversary with a solid prefix.  (c15S modes 6/7: calls from inside less.)
+# "The result of a call is a function of that call's keys, values and less only"
+# (c15_sliceby_history_independent, c15_store_call_is_standalone_call, c15_call_sequence).
+def split_bar(s):
+    return [p.strip() for p in s.split(" | ")]
+
+
+def parse_q(case):
+    parts = split_bar(case)
+    h = parts[0].split()
+    ktype, cap = int(h[1]), int(h[2])
+    xs = [int(x) for x in h[3:]]
+    calls = []
+    for p in parts[1:]:
+        t = [int(x) for x in p.split()]
+        mode, ko, nk, vo, nv, w = t[:6]
+        data = (t[6:6 + nk], t[6 + nk:6 + nk + nv]) if w == 1 else None
+        calls.append((mode, ko, nk, vo, nv, data))
+    return ktype, cap, xs[:cap], xs[cap:], calls
+
+
+def q_case(ktype, k0, v0, calls):
+    parts = ["c15Q %d %d %s" % (ktype, len(k0), " ".join(map(str, list(k0) + list(v0))))]
+    for (mode, ko, nk, vo, nv, data) in calls:
+        c = "%d %d %d %d %d %d" % (mode, ko, nk, vo, nv, 1 if data else 0)
+        if data:
+            c += " " + " ".join(map(str, list(data[0]) + list(data[1])))
+        parts.append(c)
+    return " | ".join(parts)
+
+
+def parse_q_out(o):
+    o = o.strip()
+    if not o.startswith("k="):
+        return None
+    parts = dict(p.split("=", 1) for p in o.split() if "=" in p)
+    return lst(parts["k"]), lst(parts["v"]), int(parts["c"])
+
+
+def compare_q(case, model, impl):
+    ktype, cap, k0, v0, calls = parse_q(case)
+    ms, is_ = split_bar(model), split_bar(impl)
+    if len(ms) != len(calls):
+        return "model failed: " + model[:100]
+    if len(is_) != len(calls):
+        return "implementation gave %d results for %d calls (%s)" % (len(is_), len(calls), impl[:100])
+    for idx, (m, i) in enumerate(zip(ms, is_)):
+        pm, pi = parse_q_out(m), parse_q_out(i)
+        if pm is None:
+            return "call %d of the sequence: model produced no result (%s)" % (idx, m[:60])
+        if pi is None:
+            return "call %d of the sequence: implementation produced no result (%s)" % (idx, i[:120])
+        if pm[0] != pi[0]:
+            return "call %d of the sequence: key backing array differs" % idx
+        if pm[1] != pi[1]:
+            return "call %d of the sequence: value backing array differs" % idx
+        if pm[2] != pi[2]:
+            return "call %d of the sequence: number of less calls differs (model %d, impl %d)" % (idx, pm[2], pi[2])
+    return None
+
+
+def check_one_call(mode, keys, vals, k2, v2, cnt):
+    """the property text for one SliceBy(keys, vals, less_mode) call: k2, v2 = the slices after it"""
+    n = min(len(keys), len(vals))
+    if len(k2) != len(keys) or len(v2) != len(vals):
+        return ("length", "slice lengths changed")
+    if k2[n:] != keys[n:] or v2[n:] != vals[n:]:
+        return ("suffix", "elements beyond the first min(len(keys),len(values))=%d were modified" % n)
+    if sorted(zip(k2[:n], v2[:n])) != sorted(zip(keys[:n], vals[:n])):
+        return ("pairs", "(key,value) pairs of the prefix are not a permutation of the original pairs")
+    if mode in CONSISTENT:
+        for i in range(1, n):
+            if less(mode, k2[i], k2[i - 1]):
+                return ("sorted", "keys[%d]=%d is less than keys[%d]=%d after the call" % (i, k2[i], i - 1, k2[i - 1]))
+    if cnt > cmp_bound(n):
+        return ("comparisons", "%d less calls for n=%d (budget %d = 4*n*(bitlen n+1)+16): not O(n log n)" % (cnt, n, cmp_bound(n)))
+    return None
+
+
+def monitor_q(case, impl):
+    """every call of the sequence must satisfy the property on the slices it was given, and must
+    not touch the backing arrays outside them -- whatever the earlier calls were"""
+    ktype, cap, ks, vs, calls = parse_q(case)
+    outs = split_bar(impl)
+    if len(outs) != len(calls):
+        return ("panic", "no result for the sequence: " + impl[:200])
+    for idx, ((mode, ko, nk, vo, nv, data), o) in enumerate(zip(calls, outs)):
+        if data:
+            ks = ks[:ko] + list(data[0]) + ks[ko + nk:]
+            vs = vs[:vo] + list(data[1]) + vs[vo + nv:]
+        hist = "call %d of the sequence (slices keys[%d:%d], values[%d:%d] of backing arrays of %d elements; earlier calls: %s): " % (
+            idx, ko, ko + nk, vo, vo + nv, cap, ",".join("len %d" % min(c[2], c[4]) for c in calls[:idx]) or "none")
+        po = parse_q_out(o)
+        if po is None:
+            return ("panic", hist + "SliceBy panicked / gave no result: " + o[:200])
+        k2, v2, cnt = po
+        if len(k2) != cap or len(v2) != cap:
+            return ("length", hist + "backing array length changed")
+        if k2[:ko] != ks[:ko] or k2[ko + nk:] != ks[ko + nk:] or v2[:vo] != vs[:vo] or v2[vo + nv:] != vs[vo + nv:]:
+            return ("outside-slice", hist + "the backing arrays were modified outside the slices given to the call")
+        mf = check_one_call(mode, ks[ko:ko + nk], vs[vo:vo + nv], k2[ko:ko + nk], v2[vo:vo + nv], cnt)
+        if mf:
+            return (mf[0], hist + mf[1])
+        ks, vs = k2, v2
+    return None
+
+
+def nontrivial_q(case, model):
+    outs = [parse_q_out(m) for m in split_bar(model)]
+    return len(outs) >= 2 and all(o is not None for o in outs) and outs[-1][2] + outs[-2][2] >= 2
+
+
+def g_subs(case):
+    return ["c15S " + p for p in split_bar(case)[1:]]
+
+
+def compare_g(case, model, impl):
+    subs = g_subs(case)
+    ms, is_ = split_bar(model), split_bar(impl)
+    if len(ms) != len(subs) or len(is_) != len(subs):
+        return "result count differs from the number of goroutines (%s)" % impl[:100]
+    for g, (c, m, i) in enumerate(zip(subs, ms, is_)):
+        note = compare(c, m, i)
+        if note:
+            return "goroutine %d of %d (private data, concurrent with the others): %s (sequential answer: %s)" % (g, len(subs), note, m[:80])
+    return None
+
+
+def monitor_g(case, impl):
+    subs = g_subs(case)
+    is_ = split_bar(impl)
+    if len(is_) != len(subs):
+        return ("panic", "no result: " + impl[:200])
+    for g, (c, i) in enumerate(zip(subs, is_)):
+        mf = monitor(c, i)
+        if mf:
+            return (mf[0], "goroutine %d of %d sorting private slices concurrently with the others: %s" % (g, len(subs), mf[1]))
+    return None
+
+
+def parse_a(o):
+    if not o.startswith("k="):
+        return None
+    parts = dict(p.split("=", 1) for p in o.split())
+    return lst(parts["k"]), lst(parts["v"]), int(parts["c"]), lst(parts["f"])
+
+
+def compare_a(case, model, impl):
+    pm, pi = parse_a(model), parse_a(impl)
+    if pm is None:
+        return "model produced no result (%s)" % model[:80]
+    if pi is None:
+        return "implementation produced no result (%s)" % impl[:80]
+    if pm[2] != pi[2]:
+        return "number of less calls against the adversary differs (model %d, impl %d)" % (pm[2], pi[2])
+    if pm[3] != pi[3]:
+        return "the adversary froze different values"
+    if pm[0] != pi[0] or pm[1] != pi[1]:
+        return "final keys/values differ"
+    return None
+
+
+def monitor_a(case, impl):
+    t = case.split()
+    n = int(t[1])
+    pa = parse_a(impl)
+    if pa is None:
+        return ("panic", "SliceBy panicked / gave no result: " + impl[:200])
+    k2, v2, cnt, f = pa
+    if sorted(k2) != list(range(n)) or v2 != k2:
+        return ("pairs", "(key,value) pairs are not a permutation of the original pairs")
+    for i in range(1, n):
+        if f[k2[i]] < f[k2[i - 1]]:
+            return ("sorted", "item %d (adversary value %d) placed after item %d (value %d)" % (k2[i], f[k2[i]], k2[i - 1], f[k2[i - 1]]))
+    if cnt > cmp_bound(n):
+        return ("comparisons", "%d less calls for n=%d against the adaptive adversary with %s of %d items solid before the sort "
+                "(budget %d = 4*n*(bitlen n+1)+16): not O(n log n); the same comparisons are made on the static keys %s..." % (
+                    cnt, n, t[2], n, cmp_bound(n), f[:12]))
+    return None
+
+
+SEQ_TAGS = {
+    "c15Q": (compare_q, monitor_q, nontrivial_q),
+    "c15G": (compare_g, monitor_g, lambda case, model: len(g_subs(case)) >= 2),
+    "c15A": (compare_a, monitor_a, lambda case, model: parse_a(model) is not None and parse_a(model)[2] >= 2),
+}
+
+
+def gcd(a, b):
+    while b:
+        a, b = b, a % b
+    return a
+
+
+def adv_case(rng, n, k):
+    a = 2 * rng.below(max(1, n // 2)) + 1
+    while gcd(a, n) != 1:
+        a += 2
+    return "c15A %d %d %d %d" % (n, k, a % n if n > 1 else 0, rng.below(n))
+
+
+def gen_shared(rng, tier):
+    quick = tier == "quick"
+    streams = []
+    # 1. sequences on one pair of backing arrays: two calls, every pair of lengths of a list that
+    #    crosses the 12 / 40 thresholds, (grow within capacity, shrink, equal), three element types
+    seq = []
+    lens = [0, 1, 2, 5, 12, 13, 14, 30, 41, 45]
+    for cap in ((6, 14, 45) if quick else (6, 14, 30, 45, 64)):
+        for n1 in [x for x in lens if x <= cap]:
+            for n2 in [x for x in lens if x <= cap]:
+                k0 = [rng.range(0, 99) for _ in range(cap)] if rng.chance(1, 2) else list(range(cap, 0, -1))
+                v0 = list(range(100, 100 + cap))
+                m2 = rng.choice([0, 0, 1, 2])
+                seq.append(q_case(rng.below(3), k0, v0, [(rng.choice([0, 1]), 0, n1, 0, n1, None), (m2, 0, n2, 0, n2, None)]))
+    streams.append(("seq-two-calls-same-backing-arrays", seq))
+    # 2. random sequences: 3..8 calls on random sub-slices (offsets, different key/value lengths),
+    #    some overwritten before the call, all less modes incl. inconsistent and nested ones
+    rnd = []
+    cnt = 500 if quick else 8000
+    for _ in range(cnt):
+        cap = rng.choice([2, 5, 13, 14, 20, 41, 50, rng.range(1, 80)])
+        hi = rng.choice([3, 50, 100000])
+        k0 = [rng.range(-hi, hi) for _ in range(cap)]
+        v0 = [rng.range(0, 999) for _ in range(cap)]
+        calls = []
+        for _ in range(rng.range(3, 8)):
+            nk = rng.choice([cap, rng.range(0, cap), rng.range(0, cap)])
+            nv = rng.choice([nk if nk <= cap else cap, rng.range(0, cap)])
+            ko = rng.choice([0, 0, rng.range(0, cap - nk)])
+            vo = rng.choice([0, 0, rng.range(0, cap - nv)])
+            data = None
+            if rng.chance(1, 3):
+                data = ([rng.range(-hi, hi) for _ in range(nk)], [rng.range(0, 999) for _ in range(nv)])
+            calls.append((rng.choice([0, 0, 1, 2, 3, 4, 5, 6]), ko, nk, vo, nv, data))
+        rnd.append(q_case(rng.below(3), k0, v0, calls))
+    streams.append(("seq-random-subslices", rnd))
+    # 3. SliceBy called from inside less (modes 6: 2-element inner sort, 7: 14-element inner sort)
+    nest = []
+    for n in ([2, 3, 5, 12, 13, 14, 30, 41, 60, 100] if quick else [2, 3, 5, 8, 12, 13, 14, 20, 30, 41, 42, 60, 100, 200, 400]):
+        for name, ks in families(rng, n):
+            if name in ("random", "reversed", "dups3", "organ-pipe", "sorted-blocks") or not quick:
+                nest.append(sort_case(rng.choice([6, 7]), rng.below(3), ks, list(range(n))))
+    streams.append(("nested-sliceby-inside-less", nest))
+    # 4. goroutines sorting private data concurrently (every less call yields; procs 1 = one P)
+    conc = []
+    cnt = 60 if quick else 600
+    for _ in range(cnt):
+        subs = []
+        for _ in range(rng.choice([2, 3, 4, 8])):
+            n = rng.choice([5, 13, 14, 30, 31, 32, 41, 60, rng.range(2, 120)])
+            hi = rng.choice([3, 1000])
+            nv = rng.choice([n, n, rng.range(0, n + 5)])
+            subs.append(sort_case(rng.choice([0, 0, 1, 2, 3, 6]), rng.below(3), [rng.range(0, hi) for _ in range(n)],
+                                  list(range(nv)))[len("c15S "):])
+        conc.append("c15G %d | %s" % (rng.choice([1, 1, 2, 0]), " | ".join(subs)))
+    streams.append(("concurrent-private-data", conc))
+    # 5. adaptive quicksort adversary with k of the n items solid before the sort starts
+    #    (model plays the same adversary; sizes the list-based model can afford)
+    adv = []
+    for n in ([13, 50, 100, 200, 400] if quick else [13, 41, 50, 100, 200, 400, 700, 1000]):
+        ks = sorted(set([0, 1, n // 2, n - 1, n] + [rng.range(0, n) for _ in range(6 if quick else 20)]))
+        for k in ks:
+            adv.append(adv_case(rng, n, k))
+    streams.append(("killer-adaptive-solid-prefix", adv))
+    return streams
+
+
+def adversary_large(chk, binary, rng, tier):
+    """The adaptive adversary with a solid prefix on sizes the list-based model cannot afford:
+    implementation + monitor only (comparison budget, sortedness, pairs); then the frozen values are
+    given back as STATIC keys (c15S) to implementation and monitor."""
+    cases = []
+    for n in ([1024, 2048, 4096] if tier == "quick" else [1024, 2048, 4096, 8192]):
+        step = max(1, n // (40 if tier == "quick" else 200))
+        for k in range(0, n + 1, step):
+            cases.append(adv_case(rng, n, min(n, k + rng.below(step))))
+    impl = common.run_impl(binary, cases)
+    worst = 0.0
+    static = []
+    for c, i in zip(cases, impl):
+        chk.count_case("killer-adaptive-solid-prefix-large(impl+monitor)", c, True)
+        mf = monitor_a(c, i)
+        pa = parse_a(i)
+        if pa:
+            n = int(c.split()[1])
+            worst = max(worst, pa[2] / float(cmp_bound(n)))
+            if mf or len(static) < 6:
+                static.append(sort_case(0, 0, pa[3], list(range(n))))
+        if mf:
+            chk.monitor_fail(mf[0], c, i[:300], mf[1])
+    si = common.run_impl(binary, static) if static else []
+    for c, i in zip(static, si):
+        chk.count_case("killer-solid-prefix-static(impl+monitor)", c[:200], True)
+        mf = monitor(c, i)
+        if mf:
+            chk.monitor_fail(mf[0], c, i[:300], mf[1])
+    chk.cov["adversary_large"] = dict(cases=len(cases), static_replays=len(static), max_comparisons_over_budget_ratio=round(worst, 3))
 
 
 # ---------------------------------------------------------------- generators
@@ -266,6 +578,7 @@ def gen(rng, tier):
             xs.sort()
         ur.append(rng.choice(["c15U ", "c15W "]) + " ".join(map(str, xs)))
     streams.append(("unique-random-sorted", ur))
+    streams += gen_shared(rng.fork(), tier)
     return streams
 
 
@@ -329,6 +642,17 @@ def coq_crosscheck(chk, cases, model_out):
                 continue
             mode, kt, keys, vals = case_params(c)
             items.append("ck_s %s %s %s %s %s %d" % (z(mode), zl(keys), zl(vals), zl(pm[0]), zl(pm[1]), pm[2]))
+        elif c.startswith("c15Q"):
+            ktype, cap, k0, v0, calls = parse_q(c)
+            outs = [parse_q_out(o) for o in split_bar(m)]
+            if any(o is None for o in outs):
+                continue
+            cl = ";".join("StcMk %s %d %d %d %d %s" % (z(mode), ko, nk, vo, nv, ("(Some (%s, %s))" % (zl(d[0]), zl(d[1]))) if d else "None")
+                          for (mode, ko, nk, vo, nv, d) in calls)
+            el = ";".join("(%s, %s, %d%%N)" % (zl(o[0]), zl(o[1]), o[2]) for o in outs)
+            items.append("ck_q (StoMk %s %s) [%s] [%s]" % (zl(k0), zl(v0), cl, el))
+        elif not c.startswith(("c15U", "c15W")):
+            continue
         else:
             pm = parse_unique(m)
             if pm is None:
@@ -337,13 +661,20 @@ def coq_crosscheck(chk, cases, model_out):
             items.append("ck_u %s %s %s" % (zl(xs), zl(pm[0]), zl(pm[1])))
     if not items:
         return 0
-    body = """From Got Require Import Base Sort Unique.
+    body = """From Got Require Import Base Sort Unique SortSeq.
 Local Open Scope Z_scope.
 Definition zl_eqb (a b : list Z) : bool := if list_eq_dec Z.eq_dec a b then true else false.
 Definition ck_s (mode : Z) (ks vs ks' vs' : list Z) (c : N) : bool :=
-  match srt_sliceby_z mode ks vs with
+  match srt_sliceby (srt_less_mode2 mode) ks vs with
   | SOk s => zl_eqb (st_keys s) ks' && zl_eqb (st_vals s) vs' && N.eqb (st_cmp s) c
   | _ => false end.
+Fixpoint ck_q_all (rs : list (srt_res (srt_store * N))) (es : list (list Z * list Z * N)) : bool :=
+  match rs, es with
+  | [], [] => true
+  | SOk (st, n) :: rs', (k, v, c) :: es' => zl_eqb (sto_keys st) k && zl_eqb (sto_vals st) v && N.eqb n c && ck_q_all rs' es'
+  | _, _ => false end.
+Definition ck_q (st : srt_store) (cs : list srt_call) (es : list (list Z * list Z * N)) : bool :=
+  ck_q_all (srt_run_calls st cs) es.
 Definition ck_u (xs r a : list Z) : bool :=
   match unq_unique_z xs with
   | Ok (r', a') => zl_eqb r r' && zl_eqb a a'
@@ -445,6 +776,10 @@ def run(chk):
                 pivot_hypothesis_test(chk, chk.rng.fork(), chk.tier)
             except Exception as ex:
                 chk.infra_errors.append("doPivot hypothesis test failed: %r" % (ex,))
+            try:
+                adversary_large(chk, binary, chk.rng.fork(), chk.tier)
+            except common.ImplCrash as ex:
+                chk.infra_errors.append("implementation harness crashed (adversary stream): " + str(ex)[-800:])
             # canary (DESIGN.md section 7): the model variant WITHOUT the depth limit must be told
             # apart from the real code by the observation (number of less calls) on killer inputs;
             # if not, the comparison is too weak to notice a missing heapsort fallback
@@ -474,6 +809,7 @@ def search(chk):
         mf = monitor(c, i)
         if mf:
             chk.monitor_fail(mf[0], c, i, mf[1])
+    adversary_large(chk, binary, chk.rng.fork(), "thorough")
 
 
 def replay(chk, path):
